@@ -8,7 +8,9 @@ from vlib.term import z, to_coq
 
 ID = 'C08'
 PROP_FILE = 'Props/C08.v'
-EVAL_FILES = ['Oracle/C08Oracle.v', 'Proofs/BroadcastThreadsProofs.v', 'Proofs/BroadcastOrder.v']
+# only what is needed to RUN model and oracle (definitions, no proofs): a change of the compiled constants that breaks the
+# proofs (e.g. a trailer offset) must still be judged on concrete inputs by the oracle
+EVAL_FILES = ['Oracle/C08Oracle.v']
 CRATES = ['c08']
 MODES = ['debug', 'release']
 IMPORTS = ('Require Import V.Base.MachineInt V.Model.LogBase V.Model.Broadcast V.Model.BroadcastThreads V.Model.BroadcastShow V.Spec.Lossy V.Spec.LossyJump V.Oracle.C08Oracle.')
@@ -50,14 +52,9 @@ def version():
     return _VERSION['w']
 
 
-# K1 source tie (tools/props/src_translate.py, docs/reports/SRC.md).  Its receive_next fragments and the assembly
-# receive_next_src (= receive_next W64) are keyed to receive_next as found; on a tree with
-# fixes/C08-receive-next-revalidate.diff one fragment has a new shape (length word at offset 0 read before the second
-# validation), so the tie is not run there until it is re-keyed (to do, see docs/reports/C08.md) - said in the evidence.
-EXTRA_PROP_FILES = ['Props/C08Src.v'] if version() == 'W64' else []
-if version() != 'W64':
-    ASSUMPTIONS.append('the K1 source tie Props/C08Src.v (fragments of receive_next as found) is NOT run on this tree: receive_next has the '
-                       'shape of fixes/C08-receive-next-revalidate.diff and the tie has to be re-keyed (model version W64R is used)')
+# K1 source tie (tools/props/src_translate.py, docs/reports/SRC.md): the fragments of receive_next are keyed to the function as it
+# is since fix a146cb8 (C08_src_receive_next_revalidated: assembled, they are the model version W64R)
+EXTRA_PROP_FILES = ['Props/C08Src.v']
 
 
 def mode_c(mode):
@@ -510,6 +507,11 @@ def known_class(c, mode, obs):
     if c.get('kind') != 'conc' or version() != 'W64':
         return None
     key = (json.dumps(c, sort_keys=True), mode)
+    if 'built' not in _KC_CACHE:
+        # the ghost run lives with the proofs; if they do not build (broken K1 tables) no run can be excused as known
+        _KC_CACHE['built'] = core.coq_build(['Proofs/BroadcastOrder.vo'])[0]
+    if not _KC_CACHE['built']:
+        return None
     if key not in _KC_CACHE:
         fuel = 13 * (len(c['msgs']) + c['nrecv']) + 13
         e = ('h_in (hrun %s %s true W64 (hinit %s %s %s %s %d%%nat) (%s ++ repeat 0 %d%%nat ++ repeat 1 %d%%nat))' % (
